@@ -78,10 +78,23 @@ func c01(r *Report) propMeta {
 	}, GateOpts{FailIsError: true, LoopAll: true})
 	r.Gate("setreport-after-check", oK+"AddReport", CallEff("Keeper.SetReport"), []Cond{nilErr("Keeper.CheckValidReport")}, GateOpts{FailIsError: true})
 	r.SameValue("check-same-args", oK+"AddReport", ArgRef{"Keeper.CheckValidReport", 1}, ArgRef{"Keeper.SetReport", 1})
-	r.Gate("dup-eid", "x/oracle/types.MsgReportData.ValidateBasic", RetOK(), []Cond{
-		{Op: "BOOL", A: []string{"lookup", "field:RawReport.ExternalID", "field:MsgReportData.RawReports"}, Want: false, Desc: "external id not seen before (duplicate check)"},
-	}, GateOpts{FailIsError: true, LoopAll: true})
-	r.Exists("dup-eid-recorded", "x/oracle/types.MsgReportData.ValidateBasic", MapUpdEff("field:RawReport.ExternalID", "field:MsgReportData.RawReports"), 1)
+	// two spellings of "all external ids distinct": a seen-map, or a seen-slice probed with slices.Contains
+	vb := "x/oracle/types.MsgReportData.ValidateBasic"
+	r.AnyOf("dup-eid", "MsgReportData.ValidateBasic refuses a report in which two raw reports share an external id (every id is looked up among the ids seen so far, then recorded)", map[string]func(*Report){
+		"seen-map": func(s *Report) {
+			s.Gate("dup-eid", vb, RetOK(), []Cond{
+				{Op: "BOOL", A: []string{"lookup", "field:RawReport.ExternalID", "field:MsgReportData.RawReports"}, Want: false, Desc: "external id not seen before (duplicate check)"},
+			}, GateOpts{FailIsError: true, LoopAll: true})
+			s.Exists("dup-eid-recorded", vb, MapUpdEff("field:RawReport.ExternalID", "field:MsgReportData.RawReports"), 1)
+		},
+		"seen-slice": func(s *Report) {
+			s.Gate("dup-eid", vb, RetOK(), []Cond{
+				{Op: "BOOL", A: []string{"^call:slices.Contains", "field:RawReport.ExternalID", "field:MsgReportData.RawReports|param:m"}, Want: false, Desc: "external id not among the ids seen so far (slices.Contains)"},
+			}, GateOpts{FailIsError: true, LoopAll: true})
+			s.Exists("dup-eid-recorded", vb, CallEff("builtin.append", "field:RawReport.ExternalID"), 1)
+			s.ArgHas("dup-eid-probes-the-recorded-ids", vb, "slices.Contains", 0, 1, "call:builtin.append")
+		},
+	})
 
 	r.Rule("C01.R9", "rejection census: a report is refused only for the stated reasons")
 	r.FailureCensus("report-rejections", oMS+"ReportData", map[string]reject{
